@@ -59,7 +59,7 @@ def build_wsdl(ops):
         msgs += '<message name="r_%s"><part name="r" element="tns:es"/></message>' % o["name"]
         ports += '<portType name="pt_%s"><operation name="%s"><input message="tns:m_%s"/><output message="tns:r_%s"/></operation></portType>' % (
             o["name"], o["name"], o["name"], o["name"])
-        sa = "" if o["soap_action"] is None else ' soapAction="%s"' % o["soap_action"]
+        sa = "" if o["soap_action"] is None else ' soapAction="%s"' % o["soap_action"].replace("&", "&amp;")
         nsattr = ' namespace="urn:rpc:%s"' % o["name"] if o["style"] == "rpc" else ""
         bodyparts = ""
         if o["headers"]:
@@ -89,7 +89,10 @@ def gen_ops(ctx):
         for style in ("document", "rpc"):
             for nparts in (0, 1, 2, 3):
                 for nh in (0, 1, 2):
-                    for sa in ("urn:act", None, ""):
+                    for sa in ("PRESENT", None, ""):
+                        if sa == "PRESENT":
+                            # action URIs are opaque strings: already-escaped octets, spaces, non-ASCII, query and fragment must arrive unchanged
+                            sa = ACTIONS[n % len(ACTIONS)]
                         if style == "document":
                             # document/literal: element parts (type parts are not legal there)
                             ks = [k for k in kinds if k.startswith("elem")]
@@ -105,6 +108,116 @@ def gen_ops(ctx):
                                         address="http://%s.example/%d" % ("a" if n % 2 == 0 else "b", n)))
                         n += 1
     return ops
+
+
+OVERLAP_WSDL = """<?xml version="1.0"?>
+<definitions xmlns="http://schemas.xmlsoap.org/wsdl/" xmlns:soap="http://schemas.xmlsoap.org/wsdl/%(soapns)s/"
+  xmlns:xsd="http://www.w3.org/2001/XMLSchema" xmlns:tns="urn:t" targetNamespace="urn:t">
+  <types><xsd:schema targetNamespace="urn:t" elementFormDefault="qualified">
+      <xsd:element name="in"><xsd:complexType><xsd:sequence><xsd:element name="text" type="xsd:string"/></xsd:sequence></xsd:complexType></xsd:element>
+      <xsd:element name="out" type="xsd:string"/>
+      <xsd:element name="session"><xsd:complexType><xsd:sequence><xsd:element name="token" type="xsd:string"/></xsd:sequence></xsd:complexType></xsd:element>
+  </xsd:schema></types>
+  <message name="mi"><part name="p" element="tns:in"/></message><message name="mo"><part name="p" element="tns:out"/></message>
+  <message name="mh"><part name="session" element="tns:session"/></message>
+  <message name="mr"><part name="text" type="xsd:string"/></message>
+  <portType name="pt"><operation name="op"><input message="tns:mi"/><output message="tns:mo"/></operation>
+     <operation name="rop"><input message="tns:mr"/><output message="tns:mo"/></operation></portType>
+  <binding name="b" type="tns:pt"><soap:binding style="document" transport="http://schemas.xmlsoap.org/soap/http"/>
+    <operation name="op"><soap:operation soapAction="urn:op"/><input><soap:header message="tns:mh" part="session" use="literal"/><soap:body use="literal"/></input><output><soap:body use="literal"/></output></operation>
+    <operation name="rop"><soap:operation soapAction="urn:rop" style="rpc"/><input><soap:body use="literal" namespace="urn:rpc"/></input><output><soap:body use="literal"/></output></operation>
+  </binding>
+  <service name="svc"><port name="p" binding="tns:b"><soap:address location="http://h.example/s"/></port></service>
+</definitions>"""
+
+
+class HeldText:
+    """a value whose conversion to text can be held up (a lazily computed string): the serialisation of the call that
+    carries it pauses there until released"""
+
+    def __init__(self, text, entered=None, release=None):
+        self.text, self.entered, self.release, self.first = text, entered, release, True
+
+    def __str__(self):
+        if self.first and self.entered is not None:
+            self.first = False
+            self.entered.set()
+            self.release.wait(20)
+        return self.text
+
+    def __deepcopy__(self, memo):
+        return self
+
+
+def overlap_probe(ctx, res):
+    """two calls of the same operation on one client overlap: thread A is held inside the serialisation of its request (while
+    a body or header value is converted to text) until thread B has sent a complete request.  Every request at the transport
+    must be one Envelope = [Header?] Body carrying the values of the call that produced it."""
+    import threading
+    z = _zeep()
+    for soapns, envns in (("soap", "http://schemas.xmlsoap.org/soap/envelope/"), ("soap12", "http://www.w3.org/2003/05/soap-envelope")):
+        for opname, hold in (("op", "body"), ("op", "header"), ("rop", "body")):
+            sent = {}
+
+            class T(z.transports.Transport):
+                def post_xml(self, address, envelope, headers):
+                    sent.setdefault(threading.current_thread().name, []).append(etree.fromstring(etree.tostring(envelope)))
+
+                    class R:
+                        status_code, headers, encoding = 200, {"Content-Type": "text/xml"}, "utf-8"
+                        content = ('<e:Envelope xmlns:e="%s"><e:Body><out xmlns="urn:t">r</out></e:Body></e:Envelope>' % envns).encode()
+                    return R()
+            client = z.Client(io.BytesIO((OVERLAP_WSDL % dict(soapns=soapns)).encode()), transport=T())
+            entered, release = threading.Event(), threading.Event()
+            errors = []
+
+            def call(tag, held):
+                try:
+                    text = HeldText("body-" + tag, entered, release) if held == "body" else "body-" + tag
+                    if opname == "op":
+                        tok = HeldText("tok-" + tag, entered, release) if held == "header" else "tok-" + tag
+                        client.service.op(text=text, _soapheaders={"session": {"token": tok}})
+                    else:
+                        client.service.rop(text=text)
+                except Exception as e:  # noqa
+                    errors.append("%s: %s: %s" % (tag, type(e).__name__, e))
+            ta = threading.Thread(target=call, args=("A", hold), name="A")
+            ta.start()
+            if not entered.wait(10):
+                release.set()
+                ta.join(10)
+                res.count("overlap-probe:hold-point-not-reached")
+                continue
+            tb = threading.Thread(target=call, args=("B", None), name="B")
+            tb.start()
+            tb.join(20)
+            release.set()
+            ta.join(20)
+            res.case(key=("overlap", soapns, opname, hold), nontrivial=True)
+            res.count("overlap-probe")
+            case = dict(kind="overlap", soap=soapns, operation=opname, held_in=hold)
+            fail = errors[0] if errors else None
+            for tag in ("A", "B"):
+                if fail:
+                    break
+                envs = sent.get(tag, [])
+                if len(envs) != 1:
+                    fail = "thread %s sent %d requests" % (tag, len(envs))
+                    break
+                env = envs[0]
+                kids = [etree.QName(k.tag).localname for k in env]
+                if env.tag != "{%s}Envelope" % envns or kids not in (["Header", "Body"], ["Body"]):
+                    fail = "request of thread %s is framed %s > %r" % (tag, etree.QName(env.tag).localname, kids)
+                    break
+                texts = [t for t in env.itertext() if t.strip()]
+                exp = ["tok-" + tag, "body-" + tag] if opname == "op" else ["body-" + tag]
+                if texts != exp:
+                    fail = "request of thread %s carries %r, its call supplied %r" % (tag, texts, exp)
+            if fail:
+                res.failures.append(dict(what="overlapping serialisations of one operation interfered: " + fail, case=case))
+
+
+ACTIONS = ["urn:act", "http://h.example/svc/Get%20Item", "urn:act:with space", "http://h.example/\u00c5\u00c4/op?x=1&y=2#frag", "urn:a%2Fb%25c", "urn:act"]
 
 
 def _zeep():
@@ -257,6 +370,7 @@ def run(ctx):
                                       rpc_namespace=("urn:rpc:%s" % o["name"]) if o["style"] == "rpc" else None,
                                       soap_action=o["soap_action"], address=o["address"], body_parts=len(o["parts"]))}
                 pending.append((mop, xmlcanon.node(env, strip_ws=False), address, http, case))
+    overlap_probe(ctx, res)
     if ctx.model and pending:
         outs = ctx.model.run([p[0] for p in pending])
         for (mop, envn, address, http, case), mo in zip(pending, outs):
